@@ -100,7 +100,7 @@ def ok_token(s):
 
 def run(ctx):
     import bitcoinlib
-    from bitcoinlib.encoding import (change_base, base58encode, addr_base58_to_pubkeyhash, addr_bech32_to_pubkeyhash,
+    from bitcoinlib.encoding import (change_base, base58encode, addr_base58_to_pubkeyhash, addr_to_pubkeyhash, addr_bech32_to_pubkeyhash,
                                      pubkeyhash_to_addr_base58, pubkeyhash_to_addr_bech32, convertbits, EncodingError)
     from bitcoinlib.keys import Address, Key, HDKey, deserialize_address, BKeyError
     from bitcoinlib.networks import NETWORK_DEFINITIONS
@@ -286,6 +286,19 @@ def run(ctx):
                 ctx.sample({'op': kind + ' ' + s, 'impl': py, 'spec': exp})
 
     # ---------------- mutation sweeps -------------------------------------------------------------------
+    def generic(m):
+        # the encoding-detecting reader answers what the specific reader of the detected encoding answers (both are compared
+        # with the model above), and nothing when neither accepts
+        ctx.evals += 1
+        ctx.count('addr_to_pubkeyhash(auto)')
+        g = attempt(lambda: addr_to_pubkeyhash(m))
+        b = attempt(lambda: addr_base58_to_pubkeyhash(m))
+        w = attempt(lambda: addr_bech32_to_pubkeyhash(m))
+        want = b if b is not None else w
+        if g != want:
+            ctx.violation('addr_to_pubkeyhash disagrees with the reader of the encoding the string has',
+                          {'op': 'generic ' + m, 'observed': None if g is None else hexp(g), 'expected': None if want is None else hexp(want)})
+
     def sweep_addr58(strings, exhaustive):
         cases = []
         for s in strings:
@@ -296,6 +309,7 @@ def run(ctx):
                     continue
                 cases.append(('addr58pkh ' + m, py_addr58pkh(m), kind != 'valid'))
                 cases.append(('addr58 ' + m, py_addr58(m), kind != 'valid'))
+                generic(m)
                 cases.append(('address ' + m, py_address(m), kind != 'valid'))
         ctx.compare(cases, 'mutants', refusal_ok=True)
 
@@ -308,6 +322,7 @@ def run(ctx):
                 if not ok_token(m):
                     continue
                 cases.append(('segwit_dec ' + m, py_segwit(m), kind != 'valid'))
+                generic(m)
                 r = py_address_case(m)
                 if r is not None:
                     cases.append(('address ' + m, r, kind != 'valid'))
